@@ -100,6 +100,15 @@ pub fn patterns(space: &str, tier: &str, seed: u64) -> Vec<String> {
             push(p.to_string(), &mut out);
         }
     }
+    if space == "c13" {
+        // conditionals inside look-behinds: the size of a conditional is that of (condition + yes) vs no
+        for p in [
+            r"(?<=(?(a)bc|d))x", r"(x)?(?<=(?(1)a))", r"(?<=(?(a)b|cd))", r"(?<!(?(a)bc|d))x", r"(a)?(?<=(?(1)b|cc))c", r"(?<=(?(?=a)a|b))c",
+            r"(a)?(?<=(?(1)a|b))", r"(?<=(?(a)a|bb))b", r"(b)?(?<!(?(1)a))a", r"(?<=(?(a)|b))a", r"(?<=(?(a)b))", r"(a)?(?<=(?(1)|b))b",
+        ] {
+            push(p.to_string(), &mut out);
+        }
+    }
     // commit / restore family: an atomic group (or a condition, or a negative look-ahead) that leaves several
     // alternatives behind with capture slots written between them, then a continuation that can fail, then an
     // alternative path that never enters those groups; and conditionals with groups in all three parts (numbering)
